@@ -3,6 +3,11 @@
 // Contracts for /verif (build tag "verif"): //@ comment blocks only.
 package wasmdebug
 
+import "github.com/tetratelabs/wazero/sys"
+
+func isExitError(v interface{}) bool { _, ok := v.(*sys.ExitError); return ok }
+func asError(v interface{}) error    { e, _ := v.(*sys.ExitError); return e }
+
 //@ prop C06 C20
 
 // Source-line lookup for stack traces (debug/dwarf underneath): assumed to touch only its own state.
@@ -13,4 +18,11 @@ package wasmdebug
 //@ func NewErrorBuilder() ErrorBuilder
 //@   trusted
 //@   ensures r0 != nil
+//@   modifies nothing
+
+// The error handed to the caller of a failed call: never nil, and an exit error (which carries the
+// exit code) comes back as the very same value, not wrapped.
+//@ func (s *stackTrace) FromRecovered(recovered interface{}) error
+//@   ensures[never-nil] r0 != nil
+//@   ensures[exit-error-not-wrapped] isExitError(recovered) ==> r0 == asError(recovered)
 //@   modifies nothing
